@@ -872,3 +872,17 @@ func JSONRoundTrip(o Obj) (c Obj, ok bool) {
 	}
 	return c, err == nil
 }
+
+// ErrDetail renders everything a client can see of an error value: the %+v form (which for *errs.Error is a
+// JSON document with type, message, context and cause chain) after the plain text.
+func ErrDetail(err error) (s string) {
+	if err == nil {
+		return ""
+	}
+	defer func() {
+		if r := recover(); r != nil {
+			s = fmt.Sprint("PANIC while formatting: ", r)
+		}
+	}()
+	return fmt.Sprintf("%v|%+v", err, err)
+}
